@@ -28,6 +28,15 @@ CONF_FLAGS = ["mode", "large", "crc", "dir", "segctrl"]
 # --------------------------------------------------------------------------------------------
 # implementation ops (public API only)
 # --------------------------------------------------------------------------------------------
+def _m(E, code):
+    """the member an application writes for the flag value `code`: the member of E with the STANDARD NAME of the code
+    (core.std_member; `E(code)` for a code without a standard name, ValueError for a non-member as before)"""
+    return core.std_member(E, code, strict=True)
+
+
+_code = core.std_code    # int(flag read back), after `flag == E.NAME  <=>  the value is the standard's code for NAME`
+
+
 def _bf(v: int, w: int, via: int = 0):
     if via == 1 and w in WIDTHS:
         return ByteFieldGenerator.from_int(w, v)
@@ -40,9 +49,9 @@ def _conf(a) -> PduConfig:
     dst = _bf(a["dst_v"], a["dst_w"], via)
     seq = _bf(a["seq_v"], a["seq_w"], via)
     return PduConfig(source_entity_id=src, dest_entity_id=dst, transaction_seq_num=seq,
-                     trans_mode=TransmissionMode(a["mode"]), file_flag=LargeFileFlag(a["large"]),
-                     crc_flag=CrcFlag(a["crc"]), direction=Direction(a["dir"]),
-                     seg_ctrl=SegmentationControl(a["segctrl"]))
+                     trans_mode=_m(TransmissionMode, a["mode"]), file_flag=_m(LargeFileFlag, a["large"]),
+                     crc_flag=_m(CrcFlag, a["crc"]), direction=_m(Direction, a["dir"]),
+                     seg_ctrl=_m(SegmentationControl, a["segctrl"]))
 
 
 # ---- state leaking between calls / objects: shared helpers (also used by props/c06_*.py, c07.py, c12.py) ----
@@ -50,8 +59,9 @@ def conf_view(c: PduConfig) -> Dict[str, Any]:
     """what a caller sees of a configuration object (public attributes only)"""
     s, d, q = c.source_entity_id, c.dest_entity_id, c.transaction_seq_num
     return {"src_w": int(s.byte_len), "src_v": int(s.value), "dst_w": int(d.byte_len), "dst_v": int(d.value),
-            "seq_w": int(q.byte_len), "seq_v": int(q.value), "mode": int(c.trans_mode), "large": int(c.file_flag),
-            "crc": int(c.crc_flag), "dir": int(c.direction), "segctrl": int(c.seg_ctrl)}
+            "seq_w": int(q.byte_len), "seq_v": int(q.value), "mode": _code(TransmissionMode, c.trans_mode),
+            "large": _code(LargeFileFlag, c.file_flag), "crc": _code(CrcFlag, c.crc_flag), "dir": _code(Direction, c.direction),
+            "segctrl": _code(SegmentationControl, c.seg_ctrl)}
 
 
 def shared_conf(a) -> PduConfig:
@@ -122,15 +132,15 @@ def mutate_cfdp(mask: int):
                                           "transaction_seq_num", "pdu_type", "segment_metadata_flag", "pdu_data_field_len")}
         old_src, old_dst = h.source_entity_id, h.dest_entity_id
         if mask & 1:
-            ts(h, "crc_flag", CrcFlag(1 - int(old["crc_flag"])))
+            ts(h, "crc_flag", _m(CrcFlag, 1 - int(old["crc_flag"])))
         if mask & 2:
-            ts(h, "file_flag", LargeFileFlag(1 - int(old["file_flag"])))
+            ts(h, "file_flag", _m(LargeFileFlag, 1 - int(old["file_flag"])))
         if mask & 4:
-            ts(h, "direction", Direction(1 - int(old["direction"])))
+            ts(h, "direction", _m(Direction, 1 - int(old["direction"])))
         if mask & 8:
-            ts(h, "transmission_mode", TransmissionMode(1 - int(old["transmission_mode"])))
+            ts(h, "transmission_mode", _m(TransmissionMode, 1 - int(old["transmission_mode"])))
         if mask & 16:
-            ts(h, "seg_ctrl", SegmentationControl(1 - int(old["seg_ctrl"])))
+            ts(h, "seg_ctrl", _m(SegmentationControl, 1 - int(old["seg_ctrl"])))
         if mask & 32:
             w = _ROT.get(int(old_src.byte_len), 1)
             try:
@@ -142,11 +152,11 @@ def mutate_cfdp(mask: int):
             w = _ROT.get(int(old["transaction_seq_num"].byte_len), 1)
             ts(h, "transaction_seq_num", UnsignedByteField((int(old["transaction_seq_num"].value) + 1) % (1 << (8 * w)), w))
         if mask & 128 and obj is not h:
-            ts(obj, "crc_flag", CrcFlag(1 - int(old["crc_flag"])))
-            ts(obj, "file_flag", LargeFileFlag(1 - int(old["file_flag"])))
+            ts(obj, "crc_flag", _m(CrcFlag, 1 - int(old["crc_flag"])))
+            ts(obj, "file_flag", _m(LargeFileFlag, 1 - int(old["file_flag"])))
         if mask & 256:
-            ts(h, "pdu_type", PduType(1 - int(old["pdu_type"])))
-            ts(h, "segment_metadata_flag", SegmentMetadataFlag(1 - int(old["segment_metadata_flag"])))
+            ts(h, "pdu_type", _m(PduType, 1 - int(old["pdu_type"])))
+            ts(h, "segment_metadata_flag", _m(SegmentMetadataFlag, 1 - int(old["segment_metadata_flag"])))
         if mask & 512:
             ts(h, "pdu_data_field_len", (int(old["pdu_data_field_len"]) + 0x0101) % 65536)
 
@@ -175,7 +185,7 @@ def _redecode_probe(raw: bytes, mask: int):
 
 
 def _hdr(a, conf: PduConfig = None) -> PduHeader:
-    return PduHeader(pdu_type=PduType(a["ptype"]), segment_metadata_flag=SegmentMetadataFlag(a["segmeta"]),
+    return PduHeader(pdu_type=_m(PduType, a["ptype"]), segment_metadata_flag=_m(SegmentMetadataFlag, a["segmeta"]),
                      pdu_data_field_len=a["dlen"], pdu_conf=_conf(a) if conf is None else conf)
 
 
@@ -190,10 +200,12 @@ def _fields(h: PduHeader) -> Dict[str, Any]:
     sw, sv = _bf_view(h.source_entity_id, "source id")
     dw, dv = _bf_view(h.dest_entity_id, "destination id")
     qw, qv = _bf_view(h.transaction_seq_num, "sequence number")
-    return {"ptype": int(h.pdu_type), "segmeta": int(h.segment_metadata_flag), "dlen": int(h.pdu_data_field_len),
+    return {"ptype": _code(PduType, h.pdu_type), "segmeta": _code(SegmentMetadataFlag, h.segment_metadata_flag),
+            "dlen": int(h.pdu_data_field_len),
             "src_w": sw, "src_v": sv, "dst_w": dw, "dst_v": dv, "seq_w": qw, "seq_v": qv,
-            "mode": int(h.transmission_mode), "large": int(h.file_flag), "crc": int(h.crc_flag),
-            "dir": int(h.direction), "segctrl": int(h.seg_ctrl),
+            "mode": _code(TransmissionMode, h.transmission_mode), "large": _code(LargeFileFlag, h.file_flag),
+            "crc": _code(CrcFlag, h.crc_flag), "dir": _code(Direction, h.direction),
+            "segctrl": _code(SegmentationControl, h.seg_ctrl),
             "header_len": int(h.header_len), "packet_len": int(h.packet_len),
             "conf_header_len": int(h.pdu_conf.header_len()), "large_set": bool(h.large_file_flag_set)}
 
@@ -314,9 +326,9 @@ def _hdr_mutate(h: PduHeader, old, new, path: str):
     def diff(*keys):
         return every or any(old[k] != new[k] for k in keys)
     if diff("ptype"):
-        h.pdu_type = PduType(new["ptype"])
+        h.pdu_type = _m(PduType, new["ptype"])
     if diff("segmeta"):
-        h.segment_metadata_flag = SegmentMetadataFlag(new["segmeta"])
+        h.segment_metadata_flag = _m(SegmentMetadataFlag, new["segmeta"])
     if diff("dlen"):
         h.pdu_data_field_len = new["dlen"]
     tgt = h.pdu_conf if conf else h
@@ -324,7 +336,7 @@ def _hdr_mutate(h: PduHeader, old, new, path: str):
                           ("large", "file_flag", LargeFileFlag), ("crc", "crc_flag", CrcFlag),
                           ("dir", "direction", Direction), ("segctrl", "seg_ctrl", SegmentationControl)):
         if diff(key):
-            setattr(tgt, attr, en(new[key]))
+            setattr(tgt, attr, _m(en, new[key]))
     if diff("seq_w", "seq_v"):
         tgt.transaction_seq_num = UnsignedByteField(new["seq_v"], new["seq_w"])
     if diff("src_w", "src_v", "dst_w", "dst_v"):
@@ -421,7 +433,7 @@ def op_hdr_unpack_verify(a):
     n = int(h.verify_length_and_checksum(raw))
     if n != int(h.packet_len):
         raise SelfCheckFailure("verify_length_and_checksum does not return packet_len")
-    return {"len": n, "header_len": int(h.header_len), "crc": int(h.crc_flag)}
+    return {"len": n, "header_len": int(h.header_len), "crc": _code(CrcFlag, h.crc_flag)}
 
 
 def _refused_unchanged(h: PduHeader, before: Dict[str, Any], what: str):
@@ -456,13 +468,13 @@ def op_hdr_set_len(a):
 def op_hdr_set_flags(a):
     h = _hdr(a)
     q = UnsignedByteField(a["n_seq_v"], a["n_seq_w"])
-    h.pdu_type = PduType(a["n_ptype"])
-    h.segment_metadata_flag = SegmentMetadataFlag(a["n_segmeta"])
-    h.transmission_mode = TransmissionMode(a["n_mode"])
-    h.file_flag = LargeFileFlag(a["n_large"])
-    h.crc_flag = CrcFlag(a["n_crc"])
-    h.direction = Direction(a["n_dir"])
-    h.seg_ctrl = SegmentationControl(a["n_segctrl"])
+    h.pdu_type = _m(PduType, a["n_ptype"])
+    h.segment_metadata_flag = _m(SegmentMetadataFlag, a["n_segmeta"])
+    h.transmission_mode = _m(TransmissionMode, a["n_mode"])
+    h.file_flag = _m(LargeFileFlag, a["n_large"])
+    h.crc_flag = _m(CrcFlag, a["n_crc"])
+    h.direction = _m(Direction, a["n_dir"])
+    h.seg_ctrl = _m(SegmentationControl, a["n_segctrl"])
     h.transaction_seq_num = q
     return _packed(h)
 
@@ -575,6 +587,9 @@ class C05(Prop):
             d.append("LenInBytes members")
         if int(CrcFlag.WITH_CRC) != 1 or int(LargeFileFlag.LARGE) != 1:
             d.append("WITH_CRC / LARGE values")
+        # every flag member BY NAME against table 5-1 of the standard (a swap leaves the set of values intact)
+        d += core.std_table_diffs((PduType, Direction, TransmissionMode, CrcFlag, LargeFileFlag, SegmentationControl,
+                                   SegmentMetadataFlag))
         return d
 
     def nontrivial(self, c: Case) -> bool:
